@@ -145,6 +145,7 @@ def run_case(spec, ctx, R):
     solver = spec["solver"]
     orientation = "wide" if solver == "rsp_row" else ("tall" if solver != "rsp_compute" else ("wide" if spec["idx"] % 2 else "tall"))
     A, Ap, s, kap = _matrix(rng, spec, orientation)
+    A = gen.vary(A, spec["idx"])
     m, n = A.shape
     N = min(m, n)
     tol = float(rng.choice([1e-3, 1e-5, 1e-8]))
